@@ -5397,7 +5397,7 @@ impl<'a> Parser<'a> {
                 for_query: None,
             });
 
-            if self.next_token() != Token::Comma {
+            if !self.consume_token(&Token::Comma) {
                 break;
             }
         }
@@ -9470,6 +9470,9 @@ impl<'a> Parser<'a> {
                 schema_name: Some(schema_name),
             })
         } else {
+            // only `token1` belongs to the table name: put the two look-ahead tokens back
+            self.prev_token();
+            self.prev_token();
             match token1.token {
                 Token::Word(w) => {
                     table_name = w.value;
